@@ -112,12 +112,32 @@ XercesWrapperNavigator::getParentNode(const DOMNodeType*    theXercesNode) const
 
 
 
+// The XPath data model has no node for the document type declaration, so
+// the navigation through the Xerces DOM steps over it.
+static const DOMNodeType*
+skipDocumentType(
+            const DOMNodeType*  theXercesNode,
+            bool                fForward)
+{
+    while (theXercesNode != 0 &&
+           theXercesNode->getNodeType() == DOMNodeType::DOCUMENT_TYPE_NODE)
+    {
+        theXercesNode = fForward == true ?
+                            theXercesNode->getNextSibling() :
+                            theXercesNode->getPreviousSibling();
+    }
+
+    return theXercesNode;
+}
+
+
+
 XalanNode*
 XercesWrapperNavigator::getPreviousSibling(const DOMNodeType*   theXercesNode) const
 {
     if (m_previousSibling == 0)
     {
-        return m_ownerDocument->mapNode(theXercesNode->getPreviousSibling());
+        return m_ownerDocument->mapNode(skipDocumentType(theXercesNode->getPreviousSibling(), false));
     }
     else
     {
@@ -132,7 +152,7 @@ XercesWrapperNavigator::getNextSibling(const DOMNodeType*   theXercesNode) const
 {
     if (m_nextSibling == 0)
     {
-        return m_ownerDocument->mapNode(theXercesNode->getNextSibling());
+        return m_ownerDocument->mapNode(skipDocumentType(theXercesNode->getNextSibling(), true));
     }
     else
     {
@@ -147,7 +167,7 @@ XercesWrapperNavigator::getFirstChild(const DOMNodeType*    theXercesNode) const
 {
     if (m_firstChild == 0)
     {
-        return m_ownerDocument->mapNode(theXercesNode->getFirstChild());
+        return m_ownerDocument->mapNode(skipDocumentType(theXercesNode->getFirstChild(), true));
     }
     else
     {
@@ -162,7 +182,7 @@ XercesWrapperNavigator::getLastChild(const DOMNodeType*     theXercesNode) const
 {
     if (m_lastChild == 0)
     {
-        return m_ownerDocument->mapNode(theXercesNode->getLastChild());
+        return m_ownerDocument->mapNode(skipDocumentType(theXercesNode->getLastChild(), false));
     }
     else
     {
